@@ -78,7 +78,7 @@ type pend struct {
 	val   int
 	cause otter.DeletionCause
 	w     uint32
-	seq   int // position in the order in which removals happened
+	seq   int  // position in the order in which removals happened
 	auto  bool // removed by maintenance itself (eviction, sweep), not through a write event of the producer
 	// for the sweep obligation (C13): deadline and write time of the removed entry, if it has a finite, never shortened deadline
 	exp, writtenAt int64
@@ -1150,7 +1150,7 @@ func (r *Runner) Step(i int, a *Action) (err error) {
 				r.misses--
 			}
 			if r.Cfg.Stats {
-				s := r.Env.C.Stats()
+				s := r.Env.StatsSnapshot()
 				if live && s.Hits == r.hits+1 {
 					r.hits++
 				} else if !live && s.Misses == r.misses+1 {
@@ -1667,7 +1667,7 @@ func (r *Runner) statsCheck() error {
 		return nil
 	}
 	r.St.StatsChecks++
-	s := r.Env.C.Stats()
+	s := r.Env.StatsSnapshot()
 	cur := [8]uint64{s.Hits, s.Misses, s.Evictions, s.EvictionWeight, s.LoadSuccesses, s.LoadFailures}
 	for i := range cur {
 		if cur[i] < r.prevStats[i] {
